@@ -685,7 +685,13 @@ func (r *Rig) Run(s *Session, budget time.Duration) *Result {
 		if complete() {
 			break
 		}
-		cur := atomic.LoadInt64(&st.upGot) + atomic.LoadInt64(&downGot) + atomic.LoadInt64(&carrierNo)<<40
+		// progress = verified bytes, plus the scripted carrier changes (further redials of the healthy last
+		// carrier are churn, not progress: a server that drops every carrier at once must not look alive)
+		cn := atomic.LoadInt64(&carrierNo)
+		if max := int64(len(s.Carriers)); cn > max {
+			cn = max
+		}
+		cur := atomic.LoadInt64(&st.upGot) + atomic.LoadInt64(&downGot) + cn<<40
 		if cur != lastSeen {
 			lastSeen = cur
 			lastProgress = time.Now()
